@@ -27,7 +27,7 @@ import (
 func TestMain(m *testing.M) { vt.Main(m) }
 
 type Step struct {
-	Kind   string `json:"kind"` // note detached finish after duppair resupd sreq sreqcancel cutreuse
+	Kind   string `json:"kind"` // note detached finish after duppair resupd sreq sreqcancel cutreuse lateget
 	S      int    `json:"s"`
 	R      int    `json:"r"`
 	T      int    `json:"t,omitempty"` // resupd: the session whose subscribed resource is reported as updated
@@ -63,7 +63,7 @@ func genScript(rt *rapid.T, race bool) Script {
 	}
 	n := rapid.IntRange(1, 40).Draw(rt, "n")
 	for i := 0; i < n; i++ {
-		st := Step{Kind: rapid.SampledFrom([]string{"note", "note", "note", "detached", "finish", "after", "duppair", "resupd", "sreq", "sreq", "sreqcancel", "cutreuse"}).Draw(rt, "kind")}
+		st := Step{Kind: rapid.SampledFrom([]string{"note", "note", "note", "detached", "finish", "after", "duppair", "resupd", "sreq", "sreq", "sreqcancel", "cutreuse", "lateget"}).Draw(rt, "kind")}
 		st.S = rapid.IntRange(0, s.Sessions-1).Draw(rt, "s")
 		st.R = rapid.IntRange(0, s.Calls[st.S]-1).Draw(rt, "r")
 		if st.Kind == "resupd" {
@@ -555,6 +555,22 @@ func runInBubble(s Script) (res vt.Result) {
 			synctest.Wait()
 			time.Sleep(10 * time.Millisecond)
 			synctest.Wait()
+			check(i)
+			if len(res.Violations) > 0 {
+				break
+			}
+			continue
+		}
+		if st.Kind == "lateget" {
+			// A session that had no standalone stream opens one now: whatever was stored for it while nothing
+			// was attached is replayed - its own messages only.
+			if s.Stateless || standalone[st.S] != nil {
+				continue
+			}
+			standalone[st.S] = do("GET", "", sessionIDs[st.S])
+			desc.WriteString("G")
+			res.Class("standalone_stream_opened_late")
+			settle()
 			check(i)
 			if len(res.Violations) > 0 {
 				break
